@@ -442,6 +442,21 @@ def loadInstanceLog (defs : List Def) : List Ev :=
   defs.map (fun d => Ev.new d.id) ++ defs.flatMap fillEvents
     ++ (preList defs).map .exec ++ (initList defs).map .exec
 
+def instanceValuesAux (ids : List Nat) : List Def → Except Err (List (Nat × List (List Nat × Val)))
+  | [] => .ok []
+  | d :: ds =>
+    match decFields ids d.fields with
+    | .error e => .error e
+    | .ok fs =>
+      match instanceValuesAux ids ds with
+      | .error e => .error e
+      | .ok r => .ok ((d.id, fs) :: r)
+
+/-- the parameter values assigned to the runtime objects by `load_objects(as_instance=True)`
+    (`setattr(o, name, _objectFromParameters(value, objects))`; a reference is the object of that id). -/
+def instanceValues (defs : List Def) : Except Err (List (Nat × List (List Nat × Val))) :=
+  instanceValuesAux (defs.map (·.id)) defs
+
 /-- `run.py::run`: the task is rebuilt from `params.json`, then its body starts. -/
 def runLog (defs : List Def) : List Ev :=
   loadInstanceLog defs ++ (match defs.getLast? with | some d => [.body d.id] | none => [])
